@@ -757,6 +757,34 @@ def special(ctx, home):
         ctx.violation("order-dependent:depth-limit", "diamond whose long arm exceeds the nesting limit: listing the short arm first gives rc=%s, the long arm first rc=%s" % (pa.rc, pb.rc),
                       {"a": cli.clean(pa.stderr)[-400:], "b": cli.clean(pb.stderr)[-400:]})
 
+    # a package with a long chain below it is reachable at two depths: directly from the root (the chain then just fits the limit) and at the end of a detour
+    # (the chain then exceeds it). The longest import chain decides, whichever of the two ways is listed first - for every length of chain and detour
+    for chain in (6, 7, 8, 9):
+        for detour in (1, 2, 3):
+            def shortcut(order, chain=chain, detour=detour):
+                def b(base):
+                    # packages: 0 root, 1 = X (head of the chain), 2..chain+1 = the chain below X, then the detour packages
+                    adj = {}
+                    for i in range(1, chain + 1):
+                        adj[i] = [i + 1]
+                    first_detour = chain + 2
+                    for k in range(detour):
+                        adj[first_detour + k] = [first_detour + k + 1] if k < detour - 1 else [1]
+                    adj[0] = [1, first_detour] if order == "direct-first" else [first_detour, 1]
+                    return write_graph(base, chain + 2 + detour, adj)
+                return b
+            longest = 1 + detour + 1 + chain       # root, detour, X, chain below X
+            pa = case("shortcut-%d-%d-direct-first" % (chain, detour), shortcut("direct-first"), None, "", "")
+            pb = case("shortcut-%d-%d-detour-first" % (chain, detour), shortcut("detour-first"), None, "", "")
+            ctx.count("shortcut-to-deep-chain")
+            want = 1 if longest > LIMIT else 0
+            if pa.rc != pb.rc:
+                ctx.violation("order-dependent:depth-limit:shortcut", "a chain of %d packages below X, X imported by the root directly and through a detour of %d package(s) (longest chain %d packages, limit %d): "
+                              "listing the direct import first gives rc=%s, the detour first rc=%s" % (chain, detour, longest, LIMIT, pa.rc, pb.rc), {"a": cli.clean(pa.stderr)[-400:], "b": cli.clean(pb.stderr)[-400:]})
+            elif pa.rc != want:
+                ctx.violation("depth-limit:shortcut:%s" % ("accepted-too-deep" if want else "rejected-within-limit"), "a chain of %d packages below X reached directly and through a detour of %d (longest chain %d packages, limit %d): rc=%s in both orders, expected %d" % (
+                    chain, detour, longest, LIMIT, pa.rc, want), {"a": cli.clean(pa.stderr)[-400:]})
+
 
 def replay(ctx, path):
     print(json.dumps(json.load(open(path)), indent=1)[:3000])
